@@ -139,6 +139,20 @@ class Site:
     def key(self):
         return f"{self.mod.name}:{self.qual}:{norm(self.call)[:110]}"
 
+    def stable_key(self):
+        """key() with the function's local names blanked: a finding keeps its identity when a local is renamed"""
+        if self.fn is None:
+            return self.key()
+        a = self.fn.args
+        local = {n.id for n in ast.walk(self.fn) if isinstance(n, ast.Name) and isinstance(n.ctx, ast.Store)}
+        local -= {x.arg for x in a.args + a.kwonlyargs + a.posonlyargs}
+        from .inline import _clone
+        c = _clone(self.call)
+        for n in ast.walk(c):
+            if isinstance(n, ast.Name) and n.id in local:
+                n.id = "_"
+        return f"{self.mod.name}:{self.qual}:{norm(c)[:110]}"
+
     def where(self):
         return f"{self.mod.path}:{self.call.lineno} in {self.qual}"
 
